@@ -871,3 +871,70 @@ def rule_copy_is_value(ctx):
         ctx.ob('C04.copyvalue', f, 'the copy is put into the value state before the walk', cleared,
                'no `%s.clear()` on the way: the clone of an emptied list is a schema object (isValue False) - left out as an OPTIONAL '
                'component where the original is written `30 00`' % target if not cleared else 'clear() first', node=nd.ast)
+
+
+# ------------------------------------------------------------------- C17.clear
+
+def rule_native_list_cleared(ctx):
+    """C17.clear: the native decoder builds a SEQUENCE OF / SET OF by cloning the type and appending; a clone is a schema
+    object until something is stored in it or `clear()` is called.  On every path from the clone to the return `clear()`
+    has been called, so that the Python value `[]` comes back as an (empty) value - not as a placeholder that the
+    enclosing record then treats as an absent OPTIONAL."""
+    from sa.cfg import reaching_defs
+    f = ctx.func('codec.native.decoder.SequenceOfOrSetOfPayloadDecoder.__call__')
+    cfg = ctx.cfg(f)
+    rd = reaching_defs(cfg, f.params())
+    n = 0
+    for r in cfg.stmt_nodes():
+        if not (isinstance(r.ast, ast.Return) and isinstance(r.ast.value, ast.Name)):
+            continue
+        var = r.ast.value.id
+        for d in rd[r].get(var, ()):
+            if not (d.kind == 'stmt' and isinstance(d.ast, ast.Assign) and isinstance(d.ast.value, ast.Call) and
+                    isinstance(d.ast.value.func, ast.Attribute) and d.ast.value.func.attr == 'clone'):
+                continue
+            n += 1
+            ok = cfg.must_pass(d, r, lambda m, var=var: m.kind == 'stmt' and isinstance(m.ast, ast.Expr) and isinstance(m.ast.value, ast.Call) and
+                               norm(m.ast.value.func) == '%s.clear' % var)
+            ctx.ob('C17.clear', f, 'list `%s = %s` is cleared before it is returned' % (var, norm(d.ast.value)[:40]), ok,
+                   'no `%s.clear()` between the clone and the return: `[]` is decoded into a schema object (isValue False); inside a '
+                   'record an OPTIONAL empty list that BER wrote as `30 00` is gone after the native round trip' % var if not ok else
+                   'clear() on every path', node=d.ast)
+    if n < 1:
+        raise AnalysisError('C17.clear: cloned result list not found in %s' % f.short)
+
+
+# ------------------------------------------------------------------- C14.narrow
+
+def rule_adding_narrows(ctx):
+    """C14.narrow: `subtype(subtypeSpec=X)` adds X to the inherited constraint with `+`.  For an intersection, growing its
+    own operand list narrows; for a UNION it widens (the derived type would admit what the parent refuses), so `+` on a
+    union has to build the intersection of the union and the operand."""
+    uni = ctx.cls('type.constraint.ConstraintsUnion')
+    inter = ctx.cls('type.constraint.ConstraintsIntersection')
+    n = 0
+    for nm in ('__add__', '__radd__'):
+        for cls, conj in ((inter, True), (uni, False)):
+            m = cls.method(nm)
+            if m is None:
+                raise AnalysisError('%s.%s does not resolve' % (cls.short, nm))
+            n += 1
+            par = m.params()[1] if len(m.params()) > 1 else None
+            rets = [r.value for r in walk_own(m.node) if isinstance(r, ast.Return) and r.value is not None]
+            builds_inter = bool(rets) and all(
+                isinstance(r, ast.Call) and norm(r.func).split('.')[-1] == 'ConstraintsIntersection' and
+                any(norm(a) == 'self' for a in r.args) and any(norm(a) == par for a in r.args) for r in rets)
+            grows_own = bool(rets) and all(
+                isinstance(r, ast.Call) and (norm(r.func) in ('self._derive', 'self.__class__')) and 'self._values' in norm(r) and par in names_of(r)
+                for r in rets)
+            ok = builds_inter or (conj and grows_own)
+            ctx.ob('C14.narrow', m, '`%s.%s` yields a constraint that admits no more than the receiver' % (cls.name, nm), ok,
+                   'the operand is appended to the operand list of a %s: for a union that ADMITS MORE - a type derived from `T` '
+                   '(subtypeSpec = Union(1, 2)) by subtype(subtypeSpec=Range(10, 20)) accepts 15' % cls.name if not ok else
+                   ('intersection of the receiver and the operand' if builds_inter else 'grows the operand list of an intersection'), node=m.node)
+    if n < 4:
+        raise AnalysisError('C14.narrow: methods not found')
+
+
+def names_of(e):
+    return set(x.id for x in ast.walk(e) if isinstance(x, ast.Name))
